@@ -47,7 +47,7 @@ func execC03(seg []Ev) []Ev {
 	for _, in := range seg {
 		api := toStr(in["api"])
 		e := Ev{"op": "call", "api": api}
-		for _, k := range []string{"input", "vars", "opts", "kind2", "q", "name", "mgr", "ai", "bi"} {
+		for _, k := range []string{"input", "vars", "opts", "kind2", "q", "name", "mgr", "ai", "bi", "pre"} {
 			if v, ok := in[k]; ok {
 				e[k] = v
 			}
@@ -70,6 +70,9 @@ func execC03(seg []Ev) []Ev {
 			}
 			oc, d := guarded(func() {
 				calc := calculator.NewExpressionCalculator()
+				if toStr(orEmpty(in["pre"])) == "clear" {
+					calc.Clear()
+				}
 				err = calc.SetExpression(input)
 				if err != nil {
 					return
@@ -90,6 +93,9 @@ func execC03(seg []Ev) []Ev {
 			ok := false
 			oc, d := guarded(func() {
 				t := mustache.NewMustacheTemplate()
+				if toStr(orEmpty(in["pre"])) == "clear" {
+					t.Clear()
+				}
 				err = t.SetTemplate(input)
 				if err != nil {
 					return
@@ -235,6 +241,10 @@ func genC03(g *Gen) {
 		for _, as := range c03assignments {
 			run("operator and function forms x boundary assignments", Ev{"api": "expression", "input": cps(f), "vars": anyL(as)})
 		}
+	}
+	for _, x := range []string{"a + b", "Hello {{a}}", "{{#a}}x{{/a}}", "plain"} {
+		run("Clear() before Set...", Ev{"api": "expression", "pre": "clear", "input": cps(x), "vars": anyL(c03assignments[0])})
+		run("Clear() before Set...", Ev{"api": "template", "pre": "clear", "input": cps(x)})
 	}
 	for _, how := range []string{"panic-string", "panic-int", "panic-error", "nil-deref", "index", "error", "ok"} {
 		for _, x := range []string{"Boom()", "Boom(1)", "1 + Boom(2, 3)", "Min(Boom(1), 2)", "boom(1) IS NULL"} {
